@@ -78,7 +78,13 @@ class AsyncCircusClient(object):
 
         while True:
             future = concurrent.Future()
-            self.stream.on_recv(future.set_result)
+
+            def recv(messages, future=future):
+                # one message per future: the next one stays in the socket
+                # until the loop asks for it
+                self.stream.stop_on_recv()
+                future.set_result(messages)
+            self.stream.on_recv(recv)
             try:
                 messages = yield tornado.gen.with_timeout(
                     datetime.timedelta(seconds=self._timeout), future)
